@@ -378,6 +378,25 @@ def policy_table(policy, states):
     return {s: policy.action_dist(s) for s in states}
 
 
+class PrintingListener:
+    """event listener for the TD learners / R-MAX that PRINTS progress (a user's print hook) and records rewards"""
+    def __init__(self):
+        self.episode_rewards, self.cur, self.n = [], 0, 0
+
+    def end_of_timestep(self, local_vars):
+        self.cur += local_vars["r"]
+        self.n += 1
+
+    def end_of_episode(self, local_vars):
+        print("episode", len(self.episode_rewards), "steps", self.n, "reward", self.cur)
+        self.episode_rewards.append(self.cur)
+        self.cur = 0
+
+    def results(self):
+        from types import SimpleNamespace
+        return SimpleNamespace(episode_rewards=self.episode_rewards)
+
+
 class Listener:
     """event listener used by the listener variants: counts calls (LAO*, LRTDP)"""
     def __init__(self):
@@ -409,7 +428,8 @@ def c_laostar(spec, seed, par):
     planner = LAOStar(heuristic=heur, seed=seed,
                       randomize_action_order=par.get("randomize_action_order", True),
                       randomize_nextstate_order=par.get("randomize_nextstate_order", True),
-                      max_lao_star_iterations=par.get("max_iterations", 2000), **kw)
+                      max_lao_star_iterations=par.get("max_iterations", 2000),
+                      dynamic_programming_iterations=par.get("dp_iterations", 100), **kw)
 
     keep = []
 
@@ -440,7 +460,7 @@ def c_lrtdp(spec, seed, par):
     planner = LRTDP(heuristic=lambda s: 0.0, seed=seed, iterations=par.get("iterations", 200),
                     randomize_action_order=par.get("randomize_action_order", True),
                     max_trial_length=par.get("max_trial_length"),
-                    bellman_error_margin=1e-2, **kw)
+                    bellman_error_margin=fl(par.get("bellman_error_margin", "1/100")), **kw)
 
     keep = []
 
@@ -464,7 +484,10 @@ def c_lrtdp(spec, seed, par):
 def c_astar(spec, seed, par):
     from msdm.algorithms.search import AStarSearch
     mdp = build_problem(spec)
-    planner = AStarSearch(heuristic_value=lambda s: 0, seed=seed,
+    hv = (lambda s: 0)
+    if par.get("heuristic") == "nonmonotone":      # inadmissible and non-monotone on purpose; needs assert_monotone_heuristic=False
+        hv = lambda s: -float(len(repr(s)) * 7 % 5)
+    planner = AStarSearch(heuristic_value=hv, seed=seed, assert_monotone_heuristic=par.get("assert_monotone_heuristic", True),
                           randomize_action_order=par.get("randomize_action_order", True),
                           tie_breaking_strategy=par.get("tie_breaking_strategy", "random"))
 
@@ -512,7 +535,8 @@ def c_td(spec, seed, par):
                      getattr(tdlearning, name)(episodes=par.get("episodes", 12), step_size=fl(par.get("step_size", "1/2")),
                                                rand_choose=fl(par.get("rand_choose", "1/10")),
                                                softmax_temp=fl(par.get("softmax_temp", "0")),
-                                               initial_q=initial_q, seed=seed)))
+                                               initial_q=initial_q, seed=seed,
+                                               **({"event_listener_class": PrintingListener} if par.get("listener") == "printing" else {}))))
 
     keep = []
 
@@ -536,7 +560,9 @@ def c_td(spec, seed, par):
 def c_rmax(spec, seed, par):
     from msdm.algorithms.rmax import RMAX
     mdp = build_problem(spec)
-    learner = RMAX(episodes=par.get("episodes", 8), rmax=1.0, num_transition_samples=par.get("m", 2), seed=seed)
+    learner = RMAX(episodes=par.get("episodes", 8), rmax=1.0, num_transition_samples=par.get("m", 2), seed=seed,
+                   bellman_convergence_diff=fl(par.get("bellman_convergence_diff", "1/100000")),
+                   **({"event_listener_class": PrintingListener} if par.get("listener") == "printing" else {}))
 
     keep = []
 
@@ -558,7 +584,8 @@ def c_rmax(spec, seed, par):
 def c_bpi(spec, seed, par):
     from msdm.algorithms.fscboundedpolicyiteration import FSCBoundedPolicyIteration
     pomdp = build_problem(spec)
-    learner = FSCBoundedPolicyIteration(controller_state_count=par.get("nodes", 2), iterations=par.get("iterations", 4), seed=seed)
+    learner = FSCBoundedPolicyIteration(controller_state_count=par.get("nodes", 2), iterations=par.get("iterations", 4), seed=seed,
+                                        convergence_diff=fl(par.get("convergence_diff", "1/100000")))
 
     def call(other=None):
         res = learner.train_on(pomdp if other is None else other)
@@ -571,8 +598,16 @@ def c_bpi(spec, seed, par):
 def c_ga(spec, seed, par):
     from msdm.algorithms.fscgradientascent import FSCGradientAscent
     pomdp = build_problem(spec)
+    import torch
+    kw = {}
+    if par.get("log_iteration_progress"):
+        kw["log_iteration_progress"] = par["log_iteration_progress"]
+    if par.get("optimizer"):
+        kw["optimizer"] = getattr(torch.optim, par["optimizer"])
+    if par.get("dtype"):
+        kw["dtype"] = getattr(torch, par["dtype"])
     learner = FSCGradientAscent(controller_state_count=par.get("nodes", 2), iterations=par.get("iterations", 12),
-                                learning_rate=1e-1, seed=seed)
+                                learning_rate=fl(par.get("learning_rate", "1/10")), seed=seed, **kw)
 
     def call(other=None):
         res = learner.train_on(pomdp if other is None else other)
@@ -597,7 +632,9 @@ def c_semimdp(spec, seed, par):
         kwname = {} if mode == "none" else {"name": name}          # "none": options created WITHOUT name= (library default)
         options.append(PlanToSubgoalOption(mdp=mdp, initial_states=[s for s in sl if s != sub and not mdp.is_absorbing(s)],
                                            subgoals=[sub] + [g for g in sl if mdp.is_absorbing(g) and g != sub], planner=ValueIteration(max_iterations=200),
-                                           max_steps=400, include_mdp_absorbing_states=True, **kwname))
+                                           max_steps=par.get("option_max_steps", 400),
+                                           max_nonterminal_pseudoreward=fl(par["pseudoreward"]) if par.get("pseudoreward") else float("inf"),
+                                           include_mdp_absorbing_states=True, **kwname))
     smdp = SemiMarkovDecisionProcess(mdp=mdp, options=options, n_option_simulations=par.get("nsim", 12), seed=seed,
                                      include_mdp_actions=bool(par.get("include_mdp_actions", False)))
 
@@ -786,11 +823,19 @@ def render_(val):
 
 def bracket(thunk):
     """one run bracketed by global-generator snapshots; thunk() -> (result, anything to keep)"""
+    import contextlib
+    import io
     before = snapshot()
     keep = None
+    buf = io.StringIO()
     try:
-        val, keep = thunk()
+        with contextlib.redirect_stdout(buf):
+            val, keep = thunk()
+        if buf.getvalue():                       # whatever the component prints (progress logs) is part of what is compared
+            val = {"result": val, "stdout": buf.getvalue()[:4000]} if not (isinstance(val, dict) and "__must_equal__" in val) \
+                else dict(val, stdout=buf.getvalue()[:4000])
         r = render(val)
+        r["printed_chars"] = len(buf.getvalue())
     except BaseException as e:
         if isinstance(e, (KeyboardInterrupt, SystemExit)):
             raise
